@@ -623,7 +623,7 @@ def r12_4(ctx, prog, crate):
         ctx.check(ok, "R12.4", ["from_benches", "one-insert-per-entry"], "from_benches does not insert each entry exactly once", fb.where(0))
     ra = prog.body("divan::Divan::run_action", crate)
     if ra is not None:
-        names = [c.callee for c in ra.live_calls()]
+        names = [c.callee for x_ in prog.closure_tree(ra) for c in x_.live_calls()]       # (a for_each closure inserting the groups counts)
         ctx.check("entry::tree::EntryTree::from_benches" in names and "entry::tree::EntryTree::insert_group" in names, "R12.4", ["run_action", "reads-both-lists"],
                   "run_action does not build the tree from BENCH_ENTRIES + generic benches and attach GROUP_ENTRIES", ra.where(0))
 
